@@ -501,6 +501,27 @@ pub fn run(ctx: &mut Ctx) {
     stage!(134, "ga-response", ga_response());
     stage!(135, "gi-response", gi_response());
     stage!(136, "hmac-input", hmac_input());
+    // every integer key 0..=255 outside the type's table, one at a time, on a fixed value of each type
+    macro_rules! all_keys {
+        ($name:expr, $strat:expr) => {{
+            let x = crate::core::nth_value(crate::core::h64(&($name, ctx.seed)), &$strat);
+            for k in 0..=255u8 {
+                let inj = Inject { ints: vec![(k, k)], texts: vec![], at: k };
+                if let Err(e) = check_msg(ctx, &x, &inj) {
+                    let hexs = to_cbor(&x).map(|b| crate::core::hex(&b)).unwrap_or_default();
+                    ctx.violation($name, json!({"type": $name, "cbor_hex": hexs}), &format!("{e} [with injected unknown key {k}]"));
+                    break;
+                }
+            }
+        }};
+    }
+    all_keys!("mc-request", mc_request());
+    all_keys!("mc-response", mc_response());
+    all_keys!("ga-request", ga_request());
+    all_keys!("ga-response", ga_response());
+    all_keys!("gi-response", gi_response());
+    all_keys!("hmac-input", hmac_input());
+    ctx.note("every_unknown_integer_key_0_255_injected_once_per_type", json!(true));
     if let Err(e) = check_status_bytes(ctx) {
         ctx.violation("status", json!({"type": "status"}), &e);
     }
